@@ -48,6 +48,9 @@ string only — any spelling / human form / readable form / canonical —, chain
 
 Fixes followed since this file was first written: 60dbf1e (an IDN host whose A-label ends in a digit is decoded),
 e21485a (`build` lower-cases the scheme, so an upper-case scheme round-trips: `C18_headline_roundtrip_upper_scheme`).
+Continued further in C18HeadlineMore4.lean (headline theorems for the proof modules added after the last refresh:
+C18More3.lean, C18More3b.lean, C18More3Join.lean, C18More3JoinB.lean, C18More3Spell.lean; the GAPS block below
+cites them).
 -/
 namespace Yarl
 open HumanLemmas HumanFull HumanMore HumanRelax QueryUrl QsLemmas NetlocLemmas PathAlg PathLemmas PathMore HumanReach
@@ -791,8 +794,13 @@ GAPS:
  1. The round trip is FALSE as stated for non-ASCII text in user/password (and needs the same proviso for IDN
     hosts): NFKC check of `split_url` (C18_headline_roundtrip_fails_for).  Proved only under the proviso
     "the NFKC check accepts the shown authority"; no characterisation of WHICH user/password texts pass
-    (it depends on the `unicodedata` oracle).
- 2. PARTLY CLOSED by the theorems of C18More.lean, C18Reach.lean and C18More2.lean (all under the NFKC proviso of item 1),
+    (it depends on the `unicodedata` oracle).  NOTE (the model followed fix 27f84d3): the check is the CURRENT
+    `_check_netloc`, whose screen also covers '[' and ']' now (`checkNetloc`, YarlModel/Parse.lean: "@:#?[]" are removed
+    before normalising, and a normal form containing one of "/?#@:[]" is rejected).  The proviso of every C18 theorem is
+    stated with the model's `checkNetloc` itself, so it followed the fix; the item is otherwise unchanged (still a
+    hypothesis everywhere, also in C18HeadlineMore4.lean).
+ 2. PARTLY CLOSED by the theorems of C18More.lean, C18Reach.lean, C18More2.lean and — `join`, syntactic spelling
+    conditions — C18More3Join.lean (+ C18More3JoinB.lean), C18More3Spell.lean (all under the NFKC proviso of item 1),
     family by family:
     (a) empty path with an authority — CLOSED by C18_roundtrip_empty_path, see C18_headline_roundtrip_empty_path
         (`build` without a path, any user / password, port, query pairs, fragment: shown with "/", `==` holds);
@@ -828,7 +836,18 @@ GAPS:
         `FRAGMENT_REQUOTER(rf) == FRAGMENT_QUOTER(f)` with no TAB, LF, CR — these are EQUATIONS between quoter outputs,
         not a syntactic description of the admissible spellings (item 9); the NFKC proviso on the INPUT's authority (and,
         in the general form, on the output).  The query condition is NEEDED: `URL("http://example.com/?k=v%20w")` does
-        not round-trip (shown `?k=v w`, read back `k=v+w`; C18_headline_constructor_any_spelling_example);
+        not round-trip (shown `?k=v w`, read back `k=v+w`; C18_headline_constructor_any_spelling_example).
+        FURTHER (C18More3Spell.lean, see C18HeadlineMore4.lean): the spelling conditions are now characterised
+        SYNTACTICALLY, in both directions (item 9); C18_constructor_any_spelling_syntactic (see
+        C18_headline_constructor_any_spelling_syntactic) restates the general form with the relations `R12d.SpellsOpt`
+        (user, password), `R12d.SpellsPath`, `R12d.AllSpell` (the written pairs; the written query is
+        `rk1=rv1&rk2=rv2…`), `R12d.SpellsPlain` (fragment) as hypotheses — "a written user is not empty" follows and is
+        dropped; the exclusions of literal characters, the LOWER-case written scheme, the ROOTED written path, the host
+        written as shown, the NFKC provisos on input and output all STAY.  The counterexamples are now UNIVERSAL: the
+        written path "a%2Fb" is the spelling of NO decoded path, `%FF…` of no text in any position, the written query
+        `k=v%20w` of NO list of pairs (C18_spelling_escaped_slash_spells_nothing, C18_spelling_non_utf8_spells_nothing,
+        C18_spelling_query_pct20_spells_nothing, see C18_headline_spellings_of_nothing; texts / pairs without lone
+        surrogates);
     (e) URLs made by modifiers — CLOSED (except `join`; see the end of this item) for with_fragment, with_query,
         with_user and `u / s` (ONE segment text
         without a leading "/" and without '.', on a non-empty path): C18_roundtrip_with_fragment / _with_query /
@@ -865,7 +884,31 @@ GAPS:
         outside (and the round trip is false there: item (d)).  Also NEW: the round trip can be ITERATED —
         `v = URL(u.human_repr())` satisfies `StoresOK` for the same decoded components and `v.human_repr() ==
         u.human_repr()` (C18_human_repr_stable, see C18_headline_human_repr_stable), under the NFKC proviso.  `join` and
-        `build(authority=<arbitrary raw text>)` REMAIN OPEN (C18More2.lean says so too);
+        `build(authority=<arbitrary raw text>)` REMAINED OPEN at that point (C18More2.lean says so too).
+        `join` is NOW PARTLY CLOSED by C18_stores_join_relative, C18_stores_join_absolute, C18_stores_join_netpath,
+        C18_roundtrip_join, C18_reachJ_stores, C18_roundtrip_reachJ, C18_joinTail_rfc, C18_relstores_build,
+        C18_relstores_constructor_first_segment (C18More3Join.lean; computed instances: C18More3JoinB.lean), see
+        C18_headline_join_relative_stores, C18_headline_join_absolute_netpath_stores, C18_headline_roundtrip_join,
+        C18_headline_roundtrip_reachable_with_join, C18_headline_join_path_is_rfc,
+        C18_headline_relative_reference_established, C18_headline_join_relative_example (C18HeadlineMore4.lean).
+        Proved: `base.join(ref)` satisfies `StoresOK`, hence `URL(j.human_repr()) == j` (NFKC proviso), (i) for an
+        ABSOLUTE `ref` with `StoresOK`, `base` ANY URL object (the result has the five parts of `ref`; it IS `ref` when
+        the schemes differ or the scheme has no relative resolution); (ii) for a `base` with `StoresOK` whose scheme has
+        relative resolution (`Gen.usesRelative`, a generated table) and a RELATIVE `ref` with `R12c.RelStores` (no
+        scheme, no authority, the path `PATH_QUOTER(rp)` for ANY decoded text `rp` — empty, rooted, rootless, with dot
+        segments —, the query the `k=v&…` text of decoded pairs, the fragment `FRAGMENT_QUOTER(f')`): the result stores
+        the base's authority, the decoded path `R12c.joinTail p rp` (for `rp` not "" it is the path of the independent
+        RFC 3986 §5.2.2 spec `Rfc.resolve` applied to the DECODED paths: C18_joinTail_rfc), the reference's pairs unless
+        the reference has neither path nor query, the reference's fragment; (iii) for a NETWORK-PATH `ref`
+        (`//host/path…`, `R12c.NetRefOK`) under such a base; and for every URL obtained from build / the constructor by
+        any finite chain of modifiers with decoded arguments AND such `join` steps (`R12c.HumanReachJ`).  When the base
+        scheme has NO relative resolution a relative / network-path reference comes back as it is
+        (C18_join_relative_passthrough, C18_join_netpath_passthrough: a relative URL, outside C18).  STILL OPEN of
+        `join` (C18More3Join.lean says so too): a relative reference that does NOT store encodings of decoded components
+        (`URL("a%2Fb")`, `encoded=True`), or that the constructor made from a spelling other than the canonical one
+        (`URL("x y")`: the spelled-constructor analysis of item 2(d) is for absolute URLs only); a relative /
+        network-path reference under a base WITHOUT `StoresOK`; the new hypotheses are item 11.
+        `build(authority=<arbitrary raw text>)` REMAINS OPEN;
     (f) schemes with upper case — CLOSED by C18_roundtrip_upper_scheme, see C18_headline_roundtrip_upper_scheme
         (unconditional since fix e21485a: `build` stores the scheme lower-case; the URL built with `SC` is the URL
         built with `SC.lower()`);
@@ -875,6 +918,11 @@ GAPS:
  3. Relative URLs (no scheme/host) are outside the property ("absolute") and outside the theorems.
  4. IDN hosts: the IDNA round trip (encode∘decode) and `isprintable` are ORACLE assumptions; `DispHost h`,
     `58 ∉ h` restrict the shown host to characters that do not change the authority parse.
+    NOTE (the model followed fix 3fbf5b4): a non-ASCII host whose IDNA answer holds a ':' (fullwidth digits in an IPv6
+    text, "１:0:0:0:0:0:0:2") is now stored as the IP literal the answer spells ("[1::2]": C16_mapped_ipv6,
+    C16Mapped.lean).  Such a host text, given as `h`, is in NONE of the four cases of `HostKind` (the IDN case asks for
+    an A-label `H` that is plain reg-name text, the IPv6 case for a text the parser accepts as it stands): no C18
+    theorem covers that INPUT; the statements of the C18 theorems did not change.
  5. CLOSED by C18_printable_shown_url (C18More.lean), see C18_headline_printable_shown_url.  For `URL.build(…)` of
     the family of C18_headline_roundtrip, every occurrence of a printable non-ASCII character in the decoded user,
     password, path (after dot-segment removal), query keys/values and fragment is a literal occurrence in
@@ -904,6 +952,32 @@ GAPS:
     of every URL of the family of C18_headline_roundtrip reads back to an equal URL (NFKC proviso)
     (C18_nonprintable_nonascii_escapes_not_needed, see C18_headline_nonprintable_nonascii_escapes_not_needed).  (i) and
     (ii) are computed with an INSTRUMENTED COPY of `human_repr()` (`R5.humanReprLit`), see item 10.
+    FURTHER — (i) and (ii) are now UNIVERSAL (C18More3.lean, C18More3b.lean, see C18HeadlineMore4.lean).
+    (i) '%': for EVERY decoded text `x ++ "%" ++ y` without lone surrogates and every position kind, the text shown with
+    THIS '%' left literal is requoted by the constructor to the component that `build` stores IF AND ONLY IF `y` does
+    not start with two hex digits, either case (C18_percent_literal_iff, see C18_headline_percent_escape_needed_iff;
+    every '%' of a text at once: C18_percent_literal_all_iff, see C18_headline_percent_escape_needed_all_iff), both
+    backends.  At URL level, for ANY URL with `StoresOK` and the positions path / query key / query value / fragment,
+    `URL(shown text) == u` IF AND ONLY IF no '%' left literal stands in front of two hex digits in its decoded text
+    (C18_percent_literal_url_iff, see C18_headline_percent_escape_url_iff; hypotheses: `StoresOK`, the characters left
+    literal are none of TAB / LF / CR and not in the position's escape list — `R12.LitChars` —, the NFKC proviso); for
+    all SIX positions the direction "no '%' in front of two hex digits ⟹ the round trip holds"
+    (C18_percent_literal_roundtrip, see C18_headline_percent_literal_roundtrip).  STILL OPEN of (i): the direction "in
+    front of two hex digits ⟹ `URL(shown) != u`" at URL level for USER and PASSWORD (there it is proved for the stored
+    component only).  "Changes the parse" must be read on the STORED components (`==`): read on the decoded accessors
+    the rule is FALSE — the decoded text "%FF" left literal is stored as `%FF` (`build` stores `%25FF`, the URLs are not
+    `==`) yet `.path` / `.user` / `.fragment` read "%FF" again (C18_percent_literal_decoded_converse_fails, see
+    C18_headline_percent_rule_decoded_level_false; a false READING of the clause, not a library defect; the direction
+    that holds at decoded level is C18_percent_literal_decoded, C18More3.lean).
+    (ii) non-printable characters: for ANY URL with `StoresOK`, any position and EVERY set of characters that
+    `str.isprintable()` rejects other than TAB / LF / CR — all C0 controls, DEL, every non-printable non-ASCII
+    character, whatever the `isprintable` oracle says; not a sample any more — the text shown with them literal reads
+    back to an equal URL (C18_nonprintable_literal_roundtrip, see C18_headline_nonprintable_escapes_not_needed; the
+    general form with the decidable condition `R12.LitSafeAt`, which also gives `StoresOK` of the URL read back:
+    C18_literal_roundtrip, see C18_headline_literal_roundtrip; NFKC proviso), and `URL(s)` IS `URL(s without TAB / LF /
+    CR)` for EVERY string `s` (C18_tab_lf_cr_dropped, see C18_headline_tab_lf_cr_dropped): exactly those three escapes
+    are needed for the parse.  The URL-level statements are about `R5.humanReprLit` (item 10) and about URLs with
+    `StoresOK`.
  7. Lone surrogates: `human_quote` raises (UnicodeEncodeError → modelled as valueError) — excluded by
     hypothesis; C19 covers the error kind.
  8. (new) Side conditions of the closing theorems.  `Stores` (master, modifiers) is a hypothesis; it is discharged
@@ -925,7 +999,19 @@ GAPS:
     for chains that start there (`HumanReachC`, item 2(e)); and `StoresOK` is kept by the round trip itself
     (C18_headline_human_repr_stable).  The non-vacuity instances (C18_headline_constructor_any_spelling_example,
     C18_headline_reachable_from_constructor_example) are evaluated with `HumanMore.demo` / `HumanReach.demoIdn`.
- 9. NEW (side conditions introduced by the constructor theorems of C18More2.lean, item 2(d)).  The general form
+    UPDATE 2 (C18More3Join.lean, C18More3.lean, see C18HeadlineMore4.lean): `StoresOK` is NOW ALSO discharged for the
+    results of `join` (item 2(e), hypotheses in item 11; `R12c.HumanReachJ`), and it is kept by the re-parse of a text
+    shown with harmless characters left literal (C18_headline_literal_roundtrip).  The non-vacuity instances of `join`
+    (C18_headline_join_relative_example, C18_headline_relative_reference_constructor_example;
+    C18_join_absolute_instance, C18_join_netpath_instance, C18_join_examples…, C18More3JoinB.lean) are evaluated with
+    `HumanReach.demoIdn`.
+ 9. CLOSED in the part that was open ("NO theorem characterises syntactically WHICH mixed spellings satisfy them") by
+    C18_spelling_path, C18_spelling_fragment, C18_spelling_userinfo, C18_spelling_query_value, C18_spelling_query,
+    C18_spellOpt_iff, C18_spelling_generic (C18More3Spell.lean), see C18_headline_spelling_conditions_syntactic,
+    C18_headline_spelling_query, C18_headline_spelling_determined_and_standard_forms,
+    C18_headline_constructor_any_spelling_syntactic, C18_headline_spellings_of_nothing, C18_headline_spelling_examples
+    (C18HeadlineMore4.lean); details at the end of this item; the side conditions themselves STAY.  Previous text:
+    NEW (side conditions introduced by the constructor theorems of C18More2.lean, item 2(d)).  The general form
     C18_headline_constructor_any_spelling takes the SPELLING CONDITIONS as hypotheses: equations between quoter outputs
     (`REQUOTER(usr) == QUOTER(user)`, `PATH_REQUOTER("/" ++ rp) == PATH_QUOTER("/" ++ p)`, `QUERY_REQUOTER(rq)` == the
     `k=v&…` text, `FRAGMENT_REQUOTER(rf) == FRAGMENT_QUOTER(f)`) plus the exclusion of a few literal characters.  They
@@ -935,11 +1021,57 @@ GAPS:
     C18_headline_constructor_any_spelling_example).  All constructor theorems require the written scheme in LOWER case
     (`ValidScheme`; an upper-case written scheme is lower-cased by `URL(…)` — not restated for these theorems) and a
     ROOTED written path; the human-form / readable-form theorems carry the NFKC proviso on the INPUT's authority.
-10. NEW (item 6 (i), (ii)).  `R5.humanReprLit` / `R5.changesParseLit` (C18More2.lean) are an INSTRUMENTED COPY of the
-    model's `human_repr()` ("leave the selected characters literal in one position"), not the function `humanRepr`
-    itself; the two are tied by ONE computed instance (with nothing left literal they agree on a witness with '@', '%'
-    and U+200B in the user: C18_humanReprLit_std, second conjunct of C18_headline_nonprintable_escape_classified), not by
-    a general theorem.  The classification (i), (ii) is about the six single-component witness URLs
-    (`R5.witnessT`), the listed texts and the demonstration oracle `HumanMore.demo`.
+    NOW PROVED (C18More3Spell.lean): for written and decoded texts WITHOUT LONE SURROGATES, on both backends, each
+    equation is EQUIVALENT to the syntactic relation "the written text spells the decoded text" of its position
+    (`R12d.SpellsP`: character by character a literal character, a '%' not followed by two hex digits, or the `%XY…`
+    escapes, either hex case, of the UTF-8 bytes of a character): path — every character except '/' and '+' may be
+    escaped (`%2F`, `%2B` spell nothing); fragment, user, password — no exception; query key / value — a space is
+    written ' ' or '+', NOT `%20`; '+', '=', '&', ';' are written `%2B`, `%3D`, `%26`, `%3B` only; the whole query —
+    `rq` is `rk1=rv1&rk2=rv2…` with as many pairs as decoded pairs, each key / value spelled (`R12d.AllSpell`; a piece
+    without '=', an empty piece, a second '=', a literal ';' spell no list of pairs); `R5.SpellOpt` IS `HumanPart` +
+    `R12d.SpellsOpt` (C18_spellOpt_iff).  A written text spells AT MOST ONE decoded text, the one the library's
+    unquoters compute (C18_spelling_decoded); the relation has a Bool checker (C18_spelling_checker); the canonical,
+    human and readable forms and every text without '%' are spellings (C18_spelling_canonical / _human / _readable /
+    _literal).  With lone surrogates the equivalence holds for the texts with the lone surrogates removed
+    (C18_spelling_lone_surrogates, not restated).  What STAYS as hypotheses of the constructor theorem: the exclusions
+    of literal characters (they are about how `URL(…)` SPLITS the string: a literal '?' DOES spell '?' for the path
+    quoter, C18_headline_spelling_examples), the lower-case scheme, the rooted path, the NFKC provisos.  The new
+    definitions are item 12.
+10. CLOSED (the tie) by C18_humanReprLit_none (C18More3.lean), see C18_headline_humanReprLit_is_human_repr
+    (C18HeadlineMore4.lean): `humanReprLit comp (fun _ => false) e u = humanRepr e u` for EVERY URL, environment and
+    position name.  Previous text: NEW (item 6 (i), (ii)).  `R5.humanReprLit` / `R5.changesParseLit` (C18More2.lean) are
+    an INSTRUMENTED COPY of the model's `human_repr()` ("leave the selected characters literal in one position"), not
+    the function `humanRepr` itself; the two WERE tied by ONE computed instance (with nothing left literal they agree on
+    a witness with '@', '%' and U+200B in the user: C18_humanReprLit_std, second conjunct of
+    C18_headline_nonprintable_escape_classified), not by a general theorem.  The classification (i), (ii) of
+    C18More2.lean is about the six single-component witness URLs (`R5.witnessT`), the listed texts and the demonstration
+    oracle `HumanMore.demo`; the classification of C18More3.lean / C18More3b.lean (item 6, FURTHER) is universal.  WHAT
+    STAYS TRUSTED: with a non-trivial selection `humanReprLit` has no Python counterpart — it is the specification
+    device "the text `human_repr()` would show if these characters were not escaped in this position"; its definition
+    (C18More2.lean, `humanRepr` with `humanQuoteLit` in place of `humanQuote`) must be read to accept item 6 (i), (ii).
+11. NEW (hypotheses and definitions introduced by the `join` theorems of C18More3Join.lean, item 2(e)).
+    `R12c.RelStores e ref rp kvs f` ("a relative reference that stores the encodings of decoded components") is a
+    HYPOTHESIS.  It is established by `URL.build(path=rp, query=[…], fragment=f)` for ANY `rp` (C18_relstores_build) and
+    by the constructor on the TEXT `str(ref)` of such a reference only under a side condition: the text before the first
+    ':' of the encoded path is not read as a scheme (C18_relstores_constructor), e.g. no ':' in the first segment of the
+    decoded path (C18_relstores_constructor_first_segment), see C18_headline_relative_reference_established; the
+    condition is NEEDED — for the decoded path "a:b" the text is "a:b" and `URL("a:b")` has scheme "a", path "b"
+    (C18_headline_relative_reference_constructor_example; the header of C18More3Join.lean calls this counterexample
+    C18_relstores_constructor_scheme_counterexample, a name that does not exist: it is the last two conjuncts of
+    C18_relstores_constructor_instance, C18More3JoinB.lean).  `R12c.NetRefOK` (network-path reference) is a HYPOTHESIS
+    that NO theorem establishes from the public API (no theorem says that `URL("//host/p q")` satisfies it); it is
+    inhabited by one `from_parts` record (C18_join_netpath_instance).  `hrel`: the base scheme is in the generated table
+    `Gen.usesRelative`.  `R12c.joinTail` is a hand-written definition of the DECODED join path; it is tied to the
+    independent spec `Rfc.resolve` (C14) for a non-empty reference path (C18_joinTail_rfc) and is the base's path for an
+    empty one (C18_joinTail_empty, by definition).  The `joinRel` / `joinNet` steps of `R12c.HumanReachJ` ask that the
+    BASE is itself in `HumanReachJ`; the `joinAbs` step that the REFERENCE is.
+12. NEW (definitions introduced by C18More3Spell.lean, item 9).  The relation `R12d.SpellsP`, the three explicit
+    positions `R12d.pathPos` / `plainPos` / `queryPos`, `R12d.SpellsOpt`, `R12d.AllSpell` are hand-written.  They are
+    NOT trusted for the round trip (C18_constructor_any_spelling_syntactic is DERIVED from C18_constructor_any_spelling
+    through the `iff` theorems); their reading matters only for "which inputs are covered".  The explicit positions are
+    tied to the GENERATED quoter tables by computation (`R12d.path_litOK` … decide on `Gen.*`), so they follow a
+    regeneration or fail to build.  The generic form (C18_spelling_generic) holds for ANY pair of tables satisfying the
+    decidable `R12d.TabPair`.  Outside the characterisation: the scheme, host and port pieces of the input (lower-case
+    scheme, host written as `human_repr()` shows it — `HostKind`), and relative URLs.
 -/
 end Yarl
